@@ -240,8 +240,12 @@ Inductive fmt : Type -> Type :=
 | FConst {A} (v : A) (is_v : A -> bool) (H : forall x, is_v x = true -> x = v) : fmt A
 | FSeq {A B} (fa : fmt A) (fb : fmt B) : fmt (A * B)
 | FBind {A B} (fa : fmt A) (k : A -> fmt B) : fmt (A * B)
-| FMap {A B} (f : fmt A) (to : A -> B) (from : B -> option A)
-       (H : forall b a, from b = Some a -> to a = b) : fmt B
+(* record packing / tag injection.  [from] gives the encoder its fields for
+   EVERY value; [dom] marks the values the decoder can give back (a field the
+   wire does not carry must have its zero value, a copied empty byte string
+   comes back nil, ...): the inverse law is needed only there. *)
+| FMapD {A B} (f : fmt A) (to : A -> B) (from : B -> option A) (dom : B -> bool)
+        (H : forall b a, from b = Some a -> dom b = true -> to a = b) : fmt B
 | FGuard {A} (f : fmt A) (ok : A -> bool) : fmt A
 | FOpt {A} (f : fmt A) : fmt (option A)       (* presence byte 0 | 1 ‖ value *)
 | FList {A} (ck : count_kind) (max : N) (f : nat -> fmt A) : fmt (option (list A)).
@@ -274,7 +278,7 @@ Fixpoint decode {A} (f : fmt A) : parser A :=
                 | Some (b, r') => Some ((a, b), r')
                 end
               end
-  | FMap f to _ _ =>
+  | FMapD f to _ _ _ =>
     fun bs => match decode f bs with
               | None => None
               | Some (a, r) => Some (to a, r)
@@ -320,7 +324,7 @@ Fixpoint encode {A} (f : fmt A) : A -> bytes :=
   | FConst _ _ _ => fun _ => []
   | FSeq fa fb => fun v => encode fa (fst v) ++ encode fb (snd v)
   | FBind fa k => fun v => encode fa (fst v) ++ encode (k (fst v)) (snd v)
-  | FMap f _ from _ => fun v => match from v with Some a => encode f a | None => [] end
+  | FMapD f _ from _ _ => fun v => match from v with Some a => encode f a | None => [] end
   | FGuard f _ => encode f
   | FOpt f => fun v => match v with None => [0] | Some a => 1 :: encode f a end
   | FList ck _ f =>
@@ -343,7 +347,7 @@ Fixpoint wf {A} (f : fmt A) : A -> bool :=
   | FConst _ is_v _ => is_v
   | FSeq fa fb => fun v => wf fa (fst v) && wf fb (snd v)
   | FBind fa k => fun v => wf fa (fst v) && wf (k (fst v)) (snd v)
-  | FMap f _ from _ => fun v => match from v with Some a => wf f a | None => false end
+  | FMapD f _ from dom _ => fun v => dom v && match from v with Some a => wf f a | None => false end
   | FGuard f ok => fun v => wf f v && ok v
   | FOpt f => fun v => match v with None => true | Some a => wf f a end
   | FList ck max f =>
@@ -370,8 +374,9 @@ Fixpoint veqb {A} (f : fmt A) : A -> A -> bool :=
   | FConst _ is_v _ => fun x y => is_v x && is_v y
   | FSeq fa fb => fun x y => veqb fa (fst x) (fst y) && veqb fb (snd x) (snd y)
   | FBind fa k => fun x y => veqb fa (fst x) (fst y) && veqb (k (fst x)) (snd x) (snd y)
-  | FMap f _ from _ =>
-    fun x y => match from x, from y with
+  | FMapD f _ from dom _ =>
+    fun x y => dom x && dom y &&
+               match from x, from y with
                | Some a, Some b => veqb f a b
                | _, _ => false
                end
@@ -388,6 +393,11 @@ Fixpoint veqb {A} (f : fmt A) : A -> A -> bool :=
                | _, _ => false
                end
   end.
+
+(* the common case: the inverse law holds for every value *)
+Definition FMap {A B} (f : fmt A) (to : A -> B) (from : B -> option A)
+           (H : forall b a, from b = Some a -> to a = b) : fmt B :=
+  FMapD f to from (fun _ => true) (fun b a E _ => H b a E).
 
 (* ---- whole-input decoding ("if offset != len(data) { error }") --------------- *)
 
@@ -431,7 +441,7 @@ Fixpoint allocs {A} (f : fmt A) : bytes -> list alloc_req :=
                                             | Some (a, r) => allocs (k a) r
                                             | None => []
                                             end
-  | FMap f _ _ _ => allocs f
+  | FMapD f _ _ _ _ => allocs f
   | FGuard f _ => allocs f
   | FOpt f => fun bs => match bs with
                         | b :: r => if b =? 1 then allocs f r else []
@@ -450,7 +460,7 @@ Fixpoint capped {A} (c : N) (f : fmt A) : Prop :=
   match f with
   | FSeq fa fb => capped c fa /\ capped c fb
   | FBind fa k => capped c fa /\ forall a, capped c (k a)
-  | FMap f _ _ _ => capped c f
+  | FMapD f _ _ _ _ => capped c f
   | FGuard f _ => capped c f
   | FOpt f => capped c f
   | FList ck max f => (ck_rem ck = false -> max <= c) /\ forall i, capped c (f i)
